@@ -238,6 +238,13 @@ def run_shard(ctx):
         lay = gen.Layout(rng, noise=rng.choice([0.0, 0.3]), breaks=rng.choice([0.0, 0.3]), comments=rng.choice([0.0, 0.3]))
         script = gen.render_program(prog, lay)
         one_program(ctx, script, rng, [{}] + rng.sample(all_settings[1:], 2))
+    big = gen.big_programs(rng, big_offsets=True)
+    for i in range(ctx.pick(1, 10)):
+        prog = big.program()
+        if gen.classify(prog).reject:
+            continue
+        ctx.count('big_programs')
+        one_program(ctx, gen.render_program(prog), rng, [{}])
     stateful_converter(ctx)
     block_converter(ctx, rng)
     # symbols without an equation contribute variables but no code
